@@ -27,6 +27,7 @@ pub const PROBES: &[&str] = &[
     "read_through_chain_of_bufreaders",
     "read_through_wrapped_ring_buffer",
     "read_through_boxed_chain",
+    "roundtrip_of_the_whole_date_domain",
     "insert_negative_year",
     "first_after_same_month",
     "first_after_later_month",
@@ -537,6 +538,9 @@ fn step(cx: &mut Ctx, op: &Op) -> R {
         }
         Op::RoundTrip { w, r, tail } => {
             cx.fp.tag(11);
+            if cx.w.model.first().is_some_and(|d| chrono::Datelike::year(d) == chrono::NaiveDate::MIN.year()) && cx.w.model.last().is_some_and(|d| chrono::Datelike::year(d) == chrono::NaiveDate::MAX.year()) {
+                cx.probes.hit("roundtrip_of_the_whole_date_domain");
+            }
             let items = [Item::Cur];
             concat(cx, &items, w, r, *tail)
         }
